@@ -9,6 +9,7 @@
 //  * a SIGSEGV/SIGBUS reporter (non-sanitizer builds) that says whether the faulting address
 //    lies in one of the guard pages around the caller's input bytes.
 // usage: robust_main [opsfile]
+#include <execinfo.h>
 #include <malloc.h>
 #include <signal.h>
 #include <unistd.h>
@@ -29,14 +30,30 @@ std::map<std::string, OpFn> &registry() {
 
 // ---------------------------------------------------------------- allocation monitor
 static bool g_on = false;
-static uint64_t g_cap = 0, g_max = 0, g_live = 0, g_peak = 0, g_count = 0, g_refused = 0;
+static uint64_t g_cap = 0, g_live_cap = 0, g_max = 0, g_live = 0, g_peak = 0, g_count = 0, g_refused = 0, g_refused_live = 0;
+static void *g_max_frames[24], *g_peak_frames[24];
+static int g_max_nframes = 0, g_peak_nframes = 0;
+static bool g_in_bt = false;
+static uint64_t g_peak_sampled = 0;
+static const uint64_t kSiteRequest = 256u << 10, kSitePeak = 4u << 20;
 
 static inline void *vh_new(size_t n, size_t align) {
   if (g_on) {
     ++g_count;
-    if (n > g_max) g_max = n;
+    if (n > g_max) {
+      g_max = n;
+      if (n >= kSiteRequest && !g_in_bt) {
+        g_in_bt = true;
+        g_max_nframes = backtrace(g_max_frames, 24);
+        g_in_bt = false;
+      }
+    }
     if (g_cap && n > g_cap) {
       if (!g_refused) g_refused = n;
+      throw std::bad_alloc();
+    }
+    if (g_live_cap && g_live + n > g_live_cap) {
+      if (!g_refused_live) g_refused_live = g_live + n;
       throw std::bad_alloc();
     }
   }
@@ -50,7 +67,16 @@ static inline void *vh_new(size_t n, size_t align) {
   if (!p) throw std::bad_alloc();
   if (g_on) {
     g_live += malloc_usable_size(p);
-    if (g_live > g_peak) g_peak = g_live;
+    if (g_live > g_peak) {
+      // stack of the request that raises the peak; sampled when the peak has grown by 1/8 since the last sample
+      if (g_live >= kSitePeak && g_live > g_peak + 0 && !g_in_bt && (g_peak_nframes == 0 || g_live > g_peak_sampled + g_peak_sampled / 8)) {
+        g_in_bt = true;
+        g_peak_nframes = backtrace(g_peak_frames, 24);
+        g_peak_sampled = g_live;
+        g_in_bt = false;
+      }
+      g_peak = g_live;
+    }
   }
   return p;
 }
@@ -92,9 +118,11 @@ void operator delete[](void *p, size_t, std::align_val_t) noexcept { vh_delete(p
 void operator delete(void *p, const std::nothrow_t &) noexcept { vh_delete(p); }
 void operator delete[](void *p, const std::nothrow_t &) noexcept { vh_delete(p); }
 
-extern "C" void vh_alloc_begin(uint64_t cap) {
+extern "C" void vh_alloc_begin(uint64_t cap, uint64_t live_cap) {
   g_cap = cap;
-  g_max = g_live = g_peak = g_count = g_refused = 0;
+  g_live_cap = live_cap;
+  g_max = g_live = g_peak = g_count = g_refused = g_refused_live = g_peak_sampled = 0;
+  g_max_nframes = g_peak_nframes = 0;
   g_on = true;
 }
 extern "C" void vh_alloc_end(VhAllocStats *out) {
@@ -103,6 +131,11 @@ extern "C" void vh_alloc_end(VhAllocStats *out) {
   out->peak_live = g_peak;
   out->count = g_count;
   out->refused = g_refused;
+  out->refused_live = g_refused_live;
+  out->max_nframes = g_max_nframes;
+  out->peak_nframes = g_peak_nframes;
+  memcpy(out->max_frames, g_max_frames, sizeof(g_max_frames));
+  memcpy(out->peak_frames, g_peak_frames, sizeof(g_peak_frames));
 }
 
 // ---------------------------------------------------------------- watchdog + fault reporter
@@ -162,6 +195,10 @@ int main(int argc, char **argv) {
   std::ios::sync_with_stdio(false);
   if (const char *w = getenv("VH_WATCHDOG")) g_watch = atoi(w) > 0 ? atoi(w) : g_watch;
   signal(SIGALRM, on_alarm);
+  {
+    void *warm[4];
+    backtrace(warm, 4);  // loads the unwinder now (its first call allocates)
+  }
 #if !defined(__SANITIZE_ADDRESS__) && !defined(__SANITIZE_THREAD__)
   {
     static char altstack[1 << 16];
